@@ -873,6 +873,10 @@ func rejectCases() []jCase {
 		add("PIN", v.String())
 		out = append(out, jCase{Type: "PINNumber", Reject: true, Text: v.String()})
 	}
+	// PINs of more than six digits written as bare JSON numbers (whatever a decoder makes of in-range numbers, these are no PINs)
+	for _, n := range []string{"1000000", "1234567", "98765432", "999999999", "4294967295", "4294967296", "10000000000"} {
+		out = append(out, jCase{Type: "PINNumber", Reject: true, Text: n})
+	}
 	add("ControlState", "", "open", "locked", "normally-open", "Normally Open", "CONTROLLED", "unknown", "3", "normally  open", " controlled")
 	for _, n := range []string{"0", "14", "15", "99", "256", "00", "1000000"} {
 		out = append(out, jCase{Type: "TaskType", Reject: true, Text: n, U: 1})
